@@ -11,7 +11,9 @@ run():  1. TLC: Layout_mc (all trees <= 4 nodes: 10 theorems) and DbState_mc (al
         3. code -> spec: reactors armi builds from generated blueprints (harness/gen_reactor.py) are mutated through public
            calls, written, loaded twice, re-saved and loaded again; every call's observation (layout/* read with h5py, the
            projection of the loaded reactor) goes to TLC (DbState_trace), which computes the required file and state from the
-           projection of the original and judges every clause of the statement on every node.
+           projection of the original and judges every clause of the statement on every node.  One history in six goes on in a
+           fresh process (python -m props.c04 --fresh): load + save there, then load the result here (class-level `assigned`
+           flags of the parameter definitions decide what _writeParams stores: DbState.flags).
 Expected values are always TLC's.  Python projects (project / project_file), encodes reals as strings and opaque values as
 digests, and afterwards NAMES the parameter inside a digest TLC found different (name_verdict) so that keys are stable.
 """
@@ -76,6 +78,8 @@ def canon(v, sig=SIG):
     if isinstance(v, np.ndarray):
         return canon(v.tolist(), sig)
     if isinstance(v, (list, tuple)):
+        if len(v) == 0:
+            return None      # C05 I2: an empty sequence among ragged entries comes back unset; [] and None are one observation
         return [canon(x, sig) for x in v]
     if isinstance(v, dict):
         return {str(k): canon(x, sig) for k, x in sorted(v.items(), key=lambda kv: str(kv[0]))}
@@ -129,6 +133,15 @@ def grid_key(g):
     return "%s#%s" % (type(g).__name__, digest(full)), full
 
 
+def flag_names(v):
+    """a Flags value as the sorted list of its member names (str() lists them in the order the members were registered,
+    which differs from process to process)"""
+    txt = str(v)
+    if "." in txt:
+        txt = txt.split(".", 1)[1]
+    return sorted(x for x in txt.split("|") if x)
+
+
 def param_maps(o):
     """persistent (saveToDB) parameters of one object, split into dimensions / composition / the rest"""
     dims, comp, rest = {}, {}, {}
@@ -151,7 +164,7 @@ def param_maps(o):
         elif pd.name in NOT_COMPARED:
             continue
         elif pd.serializer is not None:
-            rest[pd.name] = canon(str(v))
+            rest[pd.name] = flag_names(v)
         else:
             rest[pd.name] = canon(v)
     return dims, comp, rest
@@ -200,7 +213,7 @@ def observables(o):
             q(oc, "location", o.getLocation)
         if hasattr(o, "getType"):
             q(om, "type", o.getType)
-            q(om, "flags", lambda: str(o.p.flags))
+            q(om, "flags", lambda: flag_names(o.p.flags))
     if o.spatialGrid is not None:
         g = o.spatialGrid
         # "the coordinates of every index": a fixed probe set (an index outside a bounds-defined grid raises on both sides)
@@ -268,7 +281,8 @@ def project(root):
             grid, gfull = {"raw": "", "obs": "", "ax": False}, None
         else:
             raw, gfull = grid_key(o.spatialGrid)
-            obsfull = list(gfull[:-2]) + [_public(o.spatialGrid, "geomType"), _public(o.spatialGrid, "symmetry")]
+            obsfull = list(gfull[:-2]) + [_public(o.spatialGrid, "geomType"), _public(o.spatialGrid, "symmetry"),
+                                          canon(list(o.spatialGrid.offset))]      # the public offset, not what reduce() says
             grid = {"raw": raw, "obs": "%s#%s" % (gfull[0], digest(obsfull)), "ax": bool(o.spatialGrid.isAxialOnly)}
         iscomp = isinstance(o, Component)
         k = keys.get(id(o))
@@ -382,6 +396,8 @@ class History:
         self.r = self.w.r
         self.ev, self.how = [], []
         self.dbs = {}       # file tag -> Database (open for writing)
+        self.paths = {}     # file tag -> path of the finished file
+        self.fresh_job = None
         self.slots = {}     # slot -> (file tag, cycle, node)
         self.loaded = {}    # handle -> reactor
         self.loaded_at = {}  # handle -> index of its Load event
@@ -392,7 +408,8 @@ class History:
 
     # -- mutations (each returns a short description or None if not applicable) ---------------------------------
     def mutate(self, n):
-        kinds = ["AssignParam"] * 4 + ["SetComposition", "SetTemperature", "Swap", "Rotate", "Discharge", "AssignNoDefault"]
+        kinds = ["AssignParam"] * 3 + ["AssignShaped"] * 3 + ["SetComposition", "SetTemperature", "Swap", "Rotate", "Discharge",
+                                                               "AssignNoDefault", "SetGridOffset"]
         if self.family == "hex_third":
             kinds.append("GrowToFull")
         for _ in range(n):
@@ -440,6 +457,90 @@ class History:
         except Exception as ex:  # noqa: BLE001  a parameter that refuses the value is simply not mutated
             return "AssignParam %s.%s refused (%s)" % (type(o).__name__, name, type(ex).__name__)
         return "AssignParam %s.%s" % (type(o).__name__, name)
+
+    # parameters of every storage class the database has (database.py _writeParams / packSpecialData / JaggedArray):
+    # rectangular n-d arrays on all objects, n-d arrays of DIFFERENT shapes, arrays on some objects and nothing on the others,
+    # 1-d arrays of different lengths, lists, strings, dictionaries (on every object of the class: a column that mixes
+    # dictionaries with other values is refused by design, C05 dict:mixed), None in a numeric column.  Only value shapes
+    # whose round trip is exact in the C05 normal form are used (no scalars / nested ragged lists among ragged entries).
+    def m_AssignShaped(self):
+        import numpy as np
+        from armi.reactor import assemblies, blocks
+        from armi.reactor.components import Component
+
+        rng = self.rng
+        objs = self._objs()
+        B = [o for o in objs if isinstance(o, blocks.Block)]
+        A = [o for o in objs if isinstance(o, assemblies.Assembly)]
+        C = [o for o in objs if isinstance(o, Component)]
+
+        def some(xs, lo=2):
+            if len(xs) <= lo:
+                return list(xs)
+            return rng.sample(xs, rng.randrange(lo, max(lo + 1, len(xs) // 2 + 1)))
+
+        def one_class(xs):
+            k = rng.choice(sorted({type(x).__name__ for x in xs}))
+            return [x for x in xs if type(x).__name__ == k]
+
+        base = round(rng.uniform(1.0, 50.0), 3)
+        kind = rng.choice(("nd-ragged", "nd-rect", "1d-some", "1d-ragged", "str-assembly", "str-component", "dict-all", "none-in-numbers",
+                           "1d-component", "lists-core", "nd-ragged-component", "list-ragged"))
+        if kind == "nd-ragged":        # pin x group fluxes, blocks with different pin counts, the other blocks have none
+            for i, b in enumerate(some(B)):
+                b.p.pinMgFluxes = base * (i + 1) + np.arange((1 + i % 4) * 3, dtype=float).reshape((1 + i % 4, 3))
+        elif kind == "nd-rect":
+            for i, b in enumerate(B):
+                b.p.pinMgFluxes = base * (i + 1) + np.arange(6, dtype=float).reshape((2, 3))
+        elif kind == "1d-some":
+            for i, b in enumerate(some(B)):
+                b.p.mgFlux = np.array([base * i, 2.0, 3.25])
+        elif kind == "1d-ragged":
+            for i, b in enumerate(some(B)):
+                b.p.linPowByPin = np.arange(2 + i % 3, dtype=float) + base * i
+        elif kind == "str-assembly":
+            for i, a in enumerate(some(A, 1)):
+                a.p.notes = "note %d %s" % (i, base)
+        elif kind == "str-component":
+            for i, c in enumerate(some(C)):
+                c.p.customIsotopicsName = "iso%d" % (i % 2)
+        elif kind == "dict-all":
+            for i, b in enumerate(one_class(B)):
+                b.p.reactionRates = {"nG": base + i, "nF": 2.5, "n2n": 0.0}
+        elif kind == "none-in-numbers":
+            name = rng.choice(("flux", "power", "percentBu"))
+            for b in some(B):
+                if name in b.p.paramDefs.names:
+                    b.p[name] = None
+            kind += ":" + name
+        elif kind == "1d-component":
+            for i, c in enumerate(some(C)):
+                c.p.detailedNDens = np.array([1e-3 * (i + 1) * base, 2e-3, 0.0])
+        elif kind == "lists-core":
+            if self.r.core is None:
+                return None
+            self.r.core.p.eigenvalues = [round(1.0 + base / 1000.0, 6), 0.99]
+            self.r.core.p.betaComponents = [0.001, 0.002, base / 1e4]
+        elif kind == "nd-ragged-component":
+            for i, c in enumerate(some(C)):
+                c.p.pinNDens = base * (i + 1) + np.arange((1 + i % 3) * 2, dtype=float).reshape((1 + i % 3, 2))
+        elif kind == "list-ragged":
+            for i, b in enumerate(some(B)):
+                b.p.THcornTemp = [500.0 + i + base] * (1 + i % 3)
+        return "AssignShaped %s" % kind
+
+    def m_SetGridOffset(self):
+        """the offset of a unit-step grid (pool, core, pin lattice) in any sign pattern; armi itself only builds none / positive"""
+        import numpy as np
+        from armi.reactor import grids
+
+        owners = [o for o in self._objs() if type(o.spatialGrid) in (grids.HexGrid, grids.CartesianGrid)]
+        if not owners:
+            return None
+        o = self.rng.choice(owners)
+        off = self.rng.choice(((-25.0, -25.0, -120.0), (-1.5, 2.0, 0.0), (0.0, 0.0, -7.5), (0.0, 0.0, 0.0), (3.0, 0.0, 0.0), (-0.25, -0.5, 0.0)))
+        o.spatialGrid.offset = np.array(off)
+        return "SetGridOffset %s %s" % (type(o).__name__, off)
 
     def m_AssignNoDefault(self):
         from armi.reactor.components import Component
@@ -576,8 +677,9 @@ class History:
         from harness import gen_reactor
 
         tag, cycle, node = self.slots[slot]
-        self.close_db(tag)
-        db = Database(self.dbs[tag]._fullPath, "r")
+        if tag in self.dbs:
+            self.close_db(tag)
+        db = Database(self.paths[tag], "r")
         db.open()
         try:
             r2 = db.load(cycle, node, cs=self.w.cs, bp=gen_reactor.fresh_blueprints(self.w))
@@ -600,6 +702,46 @@ class History:
         if db is not None and db.isOpen():
             with _cwd(self.wd):
                 db.close(True)
+        if db is not None:
+            self.paths[tag] = db._fullPath
+
+    # -- the fresh process: a run that only loads a database and saves the reactor again (restart, post-processing) ----------
+    def plan_fresh(self, slot, out_tag="c"):
+        self.close_db(self.slots[slot][0])
+        tag, cycle, node = self.slots[slot]
+        self.fresh_job = {"id": self.id, "settings": self.w.path, "extra": {"trackAssems": True}, "src": self.paths[tag], "cycle": cycle,
+                          "node": node, "wd": self.wd, "out": "%s-%s.h5" % (self.id, out_tag), "slot": slot}
+        return self.fresh_job
+
+    def finish_fresh(self, res, h_fresh=5, slot_new=4, h_check=6):
+        """events of the fresh process (p = 2): Load(slot, h_fresh), Resave(h_fresh, slot_new); then Load(slot_new) here"""
+        import h5py
+        from armi.bookkeeping.db.database import getH5GroupName
+
+        job = self.fresh_job
+        a = {"n": "Load", "s": job["slot"], "h": h_fresh, "p": 2}
+        if res.get("stage") == "load":
+            self.ev.append({"a": a, "post": {"exception": res["exception"], "text": res.get("text", "")}})
+            self.dead = True
+            return
+        self.loaded_at[h_fresh] = len(self.ev) + 1
+        self.details["load@%d" % (len(self.ev) + 1)] = (res["nodes"], res["details"])
+        for n in res["notes"]:
+            self.notes.append("fresh: " + n)
+        self.ev.append({"a": a, "post": {"state": res["nodes"]}})
+        a = {"n": "Resave", "h": h_fresh, "s": slot_new, "p": 2}
+        if res.get("stage") == "write":
+            self.ev.append({"a": a, "post": {"exception": res["exception"], "text": res.get("text", "")}})
+            self.dead = True
+            return
+        path = os.path.join(job["wd"], job["out"])
+        with h5py.File(path, "r") as f:
+            obs = project_file(f[getH5GroupName(job["cycle"], job["node"])])
+        self.slots[slot_new] = ("c", job["cycle"], job["node"])
+        self.paths["c"] = path
+        self.slot_src[slot_new] = "load@%d" % self.loaded_at[h_fresh]
+        self.ev.append({"a": a, "post": {"file": obs}})
+        self.load(slot_new, h_check)
 
     def close(self):
         import shutil
@@ -615,8 +757,9 @@ class History:
         return {"id": self.id, "ev": self.ev}
 
 
-def play(hid, family, variant, seed, workdir, nmut=6, two_snapshots=True):
-    """the standard history:  State Write(1) [mutate State Write(2)] | Load(1,1) Load(1,2) [Load(2,3)] Resave(1,3) Load(3,4)"""
+def play(hid, family, variant, seed, workdir, nmut=6, two_snapshots=True, fresh=False):
+    """the standard history:  State Write(1) [mutate State Write(2)] | Load(1,1) Load(1,2) [Load(2,3)] Resave(1,3) Load(3,4)
+    and, with fresh=True, afterwards in a FRESH process Load(2 or 1, 5) Resave(5, 4), then here Load(4, 6) (run_histories)"""
     rng = random.Random(seed)
     h = History(hid, family, variant, rng, workdir)
     try:
@@ -636,9 +779,116 @@ def play(hid, family, variant, seed, workdir, nmut=6, two_snapshots=True):
             h.load(2, 3)
         if ok1 and not h.dead and h.resave(1, 3):
             h.load(3, 4)
-    finally:
+        if fresh and ok1 and not h.dead:
+            h.plan_fresh(2 if ok2 else 1)
+    except BaseException:
+        h.close()
+        raise
+    if h.fresh_job is None:
         h.close()
     return h
+
+
+def fresh_main(jobfile, outfile):
+    """entry point of the fresh process:  python -m props.c04 --fresh <jobs.json> <out.pickle>"""
+    import pickle
+
+    _quiet()
+    if os.environ.get("C04_FRESH_MUTANT"):
+        _fresh_mutant(os.environ["C04_FRESH_MUTANT"])
+    from armi import settings
+    from armi.bookkeeping.db.database import Database
+    from armi.reactor import blueprints
+
+    with open(jobfile) as f:
+        jobs = json.load(f)
+    out = {}
+    for job in jobs:
+        res = {"stage": "load"}
+        try:
+            cs = settings.Settings(fName=job["settings"]).modified(newSettings=job["extra"])
+            bp = blueprints.loadFromCs(cs)
+            db = Database(job["src"], "r")
+            db.open()
+            try:
+                r = db.load(job["cycle"], job["node"], cs=cs, bp=bp)
+            finally:
+                db.close()
+            res["nodes"], res["details"], res["notes"] = project(r)
+            res["stage"] = "write"
+            with _cwd(job["wd"]):
+                db2 = Database(job["out"], "w")
+                db2.open()
+                db2.writeToDB(r)
+                db2.close(True)
+            res["stage"] = "done"
+        except Exception as ex:  # noqa: BLE001  the parent logs it as the observation of that call
+            res["exception"], res["text"] = type(ex).__name__, str(ex)[:300]
+        out[job["id"]] = res
+    with open(outfile, "wb") as f:
+        pickle.dump(out, f)
+    return 0
+
+
+def _fresh_mutant(name):
+    """selftest only: the fresh process cannot inherit an in-process patch, it applies the named mutant itself"""
+    _MUTANTS[name]()
+
+
+def _src_mutant(func, old, new):
+    """the function `func` with one piece of its source text replaced (compiled in its own module's namespace)"""
+    import inspect
+    import textwrap
+
+    src = textwrap.dedent(inspect.getsource(func))
+    if src.count(old) != 1:
+        raise tlc.MachineryError("selftest mutant: %r occurs %d times in %s" % (old, src.count(old), func.__qualname__))
+    ns = {}
+    exec(compile(src.replace(old, new), inspect.getsourcefile(func), "exec"), func.__globals__, ns)  # noqa: S102
+    return ns[func.__name__]
+
+
+def _mut_readparams_setattr():
+    """seed 5: _readParams stores values straight into the collections' fields: loading flags no definition as assigned"""
+    from armi.bookkeeping.db import database as D
+
+    f = _src_mutant(D.Database._readParams, "c.p[paramName] = val", "setattr(c.p, pDef.fieldName, val)")
+    D.Database._readParams = f if isinstance(f, staticmethod) else staticmethod(f)
+
+
+_MUTANTS = {"readparams_setattr": _mut_readparams_setattr}
+
+
+def run_fresh(hs, workdir):
+    """one fresh python process serves the jobs of all histories of this run (it never builds a reactor from inputs)"""
+    import pickle
+    import subprocess
+    import sys
+
+    jobs = [h.fresh_job for h in hs.values() if h.fresh_job is not None]
+    if not jobs:
+        return 0
+    jf, of = os.path.join(workdir, "fresh-jobs.json"), os.path.join(workdir, "fresh-out.pickle")
+    with open(jf, "w") as f:
+        json.dump(jobs, f)
+    env = dict(os.environ)
+    import armi
+
+    repo = os.path.dirname(os.path.dirname(os.path.abspath(armi.__file__)))
+    env["PYTHONPATH"] = os.pathsep.join([common.ROOT, repo] + [p for p in env.get("PYTHONPATH", "").split(os.pathsep) if p])
+    p = subprocess.run([sys.executable, "-m", "props.c04", "--fresh", jf, of], cwd=common.ROOT, env=env, stdout=subprocess.PIPE,
+                       stderr=subprocess.STDOUT, timeout=3000)
+    if p.returncode != 0 or not os.path.exists(of):
+        raise tlc.MachineryError("fresh process failed rc=%s\n%s" % (p.returncode, p.stdout.decode("utf-8", "replace")[-2000:]))
+    with open(of, "rb") as f:
+        out = pickle.load(f)
+    for h in hs.values():
+        if h.fresh_job is not None:
+            try:
+                h.finish_fresh(out[h.id])
+            finally:
+                h.close()
+    return len(jobs)
 
 
 # ------------------------------------------------------------------------------------------------------------
@@ -789,7 +1039,7 @@ class GenericAdapter:
                 for c in list(o):
                     o.remove(c)
             elif nd["ty"] == "K":
-                o = Circle(nd["nm"], "HT9", Tinput=25.0, Thot=400.5, od=float(nd["ck"][0]), id=0.0, mult=1)
+                o = Circle(nd["nm"], nd["mat"], Tinput=25.0, Thot=400.5, od=float(nd["ck"][0]), id=0.0, mult=1)
             elif nd["ty"] == "B":
                 o = _box_class()(nd["nm"])
             else:
@@ -942,13 +1192,17 @@ def history_plan(n, seed):
     return [("h%d" % i, fams[i % len(fams)], (i // len(fams) + seed) % 12, seed * 100003 + i) for i in range(n)]
 
 
+def wants_fresh(i):
+    """which histories of a plan get the fresh-process stage: one in six, rotating through the families"""
+    return i % 6 == (i // 6) % 6
+
+
 def run_histories(plan, workdir):
-    hs, traces = {}, []
-    for hid, fam, var, sd in plan:
-        h = play(hid, fam, var, sd, workdir)
-        hs[hid] = h
-        traces.append(h.trace())
-    return hs, traces
+    hs = {}
+    for i, (hid, fam, var, sd) in enumerate(plan):
+        hs[hid] = play(hid, fam, var, sd, workdir, fresh=wants_fresh(int(hid[1:])) if hid[1:].isdigit() else False)
+    run_fresh(hs, workdir)
+    return hs, [h.trace() for h in hs.values()]
 
 
 def judge_histories(rep, hs, traces, plan):
@@ -1087,7 +1341,12 @@ def run(rep, tier, seed):
         "the driver settles the reactor before observing it (clearCache, Component.getVolume, Core.setBlockMassParams) as DESIGN C04 "
         "prescribes: lazily cached derived values of the live objects are not reactor state; "
         "maxAssemNum (reset by Core.processLoading) and serialNum (the node identity) are not compared as parameters",
-        "AssignParam replaces numeric / 1-d real-array parameter values only; parameters without default: zrFrac, buRate only",
+        "AssignParam replaces numeric / 1-d real-array parameter values; AssignShaped assigns real persistent parameters of every "
+        "storage class (rectangular and differently shaped n-d arrays, arrays on some objects only, 1-d arrays and lists of "
+        "different lengths, strings, dictionaries on every object of a class, None in numeric columns) within the shapes whose "
+        "round trip is exact in the C05 normal form ([] = unset); parameters without default: zrFrac, buRate only",
+        "one history in six continues in a FRESH python process that only loads the snapshot and saves it again (events with p = 2); "
+        "Flags values are compared as sets of member names (their printed order depends on the process)",
     )
 
 
@@ -1123,6 +1382,7 @@ def selftest():
     from harness.selftest import patched, run_mutants
 
     _quiet()
+    import contextlib
 
     import numpy as np
     from armi.bookkeeping.db import database as D
@@ -1217,8 +1477,30 @@ def selftest():
         with patched(C.Component, "resolveLinkedDims", resolve_nothing):
             return orig_load(self, *a, **k)
 
+    from armi.bookkeeping.db import jaggedArray as J
+
+    @contextlib.contextmanager
+    def fresh_process_mutant(name):
+        """in this process and, through the environment, in the fresh process"""
+        old = D.Database.__dict__["_readParams"]
+        os.environ["C04_FRESH_MUTANT"] = name
+        _MUTANTS[name]()
+        try:
+            yield
+        finally:
+            D.Database._readParams = old
+            del os.environ["C04_FRESH_MUTANT"]
+
     P = patched
     mutants = [
+        ("seed 1: JaggedArray advances its offset by len(array) instead of array.size", lambda: P(
+            J.JaggedArray, "__init__", _src_mutant(J.JaggedArray.__init__, "offset += numpyArray.size", "offset += len(numpyArray)"))),
+        ("seed 2: StructuredGrid.reduce keeps an offset only if a component is positive", lambda: P(
+            SG.StructuredGrid, "reduce", _src_mutant(SG.StructuredGrid.reduce, "None if not self._offset.any() else tuple(self._offset)",
+                                                     "tuple(self._offset) if (self._offset > 0).any() else None"))),
+        ("seed 4: the layout stores material.name instead of the material's class name", lambda: P(
+            L.Layout, "_createLayout", _src_mutant(L.Layout._createLayout, "comp.material.__class__.__name__", "comp.material.name"))),
+        ("seed 5: _readParams bypasses the parameter properties (no assigned flags after a load)", lambda: fresh_process_mutant("readparams_setattr")),
         ("_packLocationsV3 stores local instead of complete indices", lambda: P(L, "_packLocationsV3", L._packLocationsV2)),
         ("_packLocationsV3 labels free coordinates as grid indices", lambda: P(L, "_packLocationsV3", pack_coord_as_index)),
         ("_unpackLocationsV2 returns multi-index sub-locations reversed", lambda: P(L, "_unpackLocationsV2", unpack_reversed_multi)),
@@ -1237,3 +1519,10 @@ def selftest():
         return run_mutants(mutants, detect)
     finally:
         _SELFTEST = False
+
+
+if __name__ == "__main__":
+    import sys
+
+    if len(sys.argv) == 4 and sys.argv[1] == "--fresh":
+        sys.exit(fresh_main(sys.argv[2], sys.argv[3]))
